@@ -3,7 +3,8 @@ the two clauses `match_ctime` / `match_inode` and the final conjunction of the c
 Parent::is_parent, translated term by term (unknown terms fail loudly) — and checks the shape
 of the statements the model transcribes by hand (reuse guard in Parent::process, lazy p_node,
 unchanged-tree short-cut and `has_tree` guard in TreeArchiver::backup_tree, the three uses of
-force / skip_if_unchanged)."""
+force / skip_if_unchanged) — and which option ParentOptions::get_parent hands to which parameter
+of Parent::new (argument order)."""
 import re, sys, os
 sys.path.insert(0, os.path.join(os.path.dirname(__file__), "..", "..", "lib"))
 from rustscan import *
@@ -105,6 +106,43 @@ def gen(repo):
     gp = norm(fn_body(bk, "get_parent"))
     if "let parent = if self.force { Vec::new() } else if self.parents.is_empty() {" not in gp:
         raise ExtractError("get_parent: force no longer yields the empty parent list first")
+    # how get_parent hands the two options to Parent::new(be, index, tree_id, ignore_ctime, ignore_inode)
+    sig = norm(fn_sig(ps, "new"))
+    if not re.search(r"ignore_ctime: bool, ignore_inode: bool,? \)", sig):
+        raise ExtractError("Parent::new: the last two parameters are no longer (ignore_ctime: bool, ignore_inode: bool): " + sig)
+    nb = norm(fn_body(ps, "new"))
+    if not re.search(r"Self \{ tree_ids, trees, stack: Vec::new\(\), ignore_ctime, ignore_inode,? \}", nb):
+        raise ExtractError("Parent::new: the struct is no longer initialised field by field from the parameters of the same name")
+    gp_raw = fn_body(bk, "get_parent")
+    m = re.search(r"Parent::new\s*\(", gp_raw)
+    if not m: raise ExtractError("get_parent: call of Parent::new not found")
+    b = m.end() - 1
+    e = match_brace(gp_raw, b, "(", ")")
+    args, depth, cur = [], 0, ""
+    for ch in gp_raw[b + 1:e]:
+        if ch in "([{": depth += 1
+        if ch in ")]}": depth -= 1
+        if ch == "," and depth == 0:
+            args.append(norm(cur)); cur = ""
+        else:
+            cur += ch
+    if norm(cur): args.append(norm(cur))
+    if len(args) != 5:
+        raise ExtractError("get_parent: Parent::new is no longer called with five arguments: %r" % args)
+    passed = []
+    for a in args[3:]:
+        bare = re.fullmatch(r"ignore_(ctime|inode)", a)
+        if re.fullmatch(r"self\.ignore_(ctime|inode)", a):
+            passed.append("ic" if a.endswith("ctime") else "ii")
+        elif bare:
+            # a local of that name: only accepted when it is the field of the same name (destructuring
+            # `let Self { ignore_ctime, ignore_inode, .. } = *self;` without renaming, no other binding)
+            if re.search(r"let (mut )?ignore_(ctime|inode)\b", gp) or re.search(r"ignore_(ctime|inode) ?:", gp) \
+               or not re.search(r"let Self \{[^}]*\b%s\b[^}]*\} = \*?&?self;" % a, gp):
+                raise ExtractError("get_parent: cannot tell which option the local `%s` holds" % a)
+            passed.append("ic" if a.endswith("ctime") else "ii")
+        else:
+            raise ExtractError("get_parent: argument of Parent::new not understood: %r" % a)
     ar = norm(fn_body(read(repo, "crates/core/src/archiver.rs"), "archive"))
     if "if !skip_identical_parent || Some(self.snap.tree) != self.parent.tree_id() {" not in ar:
         raise ExtractError("Archiver::archive: skip_identical_parent guard changed")
@@ -119,10 +157,12 @@ def gen(repo):
     txt += "Definition is_parent_conj (ty sz mt ct ino : bool) : bool :=\n  %s.\n" % " && ".join(cj)
     txt += "\n(* guard of the unchanged-tree arm of TreeArchiver::backup_tree: `id == *p_id` %s *)\n" % ("&& self.index.has_tree(&id)" if shortcut_guarded else "(no index test)")
     txt += "Definition shortcut_requires_has_tree : bool := %s.\n" % ("true" if shortcut_guarded else "false")
-    meta = {"shortcut_requires_has_tree": shortcut_guarded, "match_ctime": " || ".join(ct_src), "match_inode": " || ".join(ino_src), "conjunction": " && ".join(cj_src),
+    txt += "\n(* ParentOptions::get_parent: Parent::new(be, index, trees, %s, %s); parameters (.., ignore_ctime, ignore_inode) *)\n" % (args[3], args[4])
+    txt += "Definition get_parent_passes (ic ii : bool) : bool * bool := (%s, %s).\n" % (passed[0], passed[1])
+    meta = {"get_parent_passes_to_Parent_new": [args[3], args[4]], "shortcut_requires_has_tree": shortcut_guarded, "match_ctime": " || ".join(ct_src), "match_inode": " || ".join(ino_src), "conjunction": " && ".join(cj_src),
             "inode_clause_uses_negated_option": "!ignore_inode" in ino_src,
             "shape_checks": ["is_parent peek/find", "p_node loop", "process reuse guard + unwrap + set_dir order", "set_dir sort/dedup/stack",
-                             "backup_tree short-cut + has_tree guard", "FileArchiver::process arms", "get_parent force", "archive skip guard"]}
+                             "backup_tree short-cut + has_tree guard", "FileArchiver::process arms", "get_parent force", "Parent::new parameter order and field initialisation", "archive skip guard"]}
     return txt, meta
 
 
